@@ -81,6 +81,7 @@ type frame struct {
 	visits    map[int]int
 	callInst  ssa.Instruction
 	fromDefer bool
+	hofOf     string // non-empty: this frame is the function argument of that higher-order callee
 }
 
 type state struct {
@@ -126,6 +127,7 @@ type Engine struct {
 	out        []Summary
 	root       *ssa.Function
 	opaque     map[string]bool  // canonical callee names never inlined
+	hof        map[string]int   // opaque higher-order callee -> index of the function argument it runs (modelled as one synchronous call)
 	bind       map[string]*Term // term key -> replacement (composition presets)
 	stats      struct{ paths, pruned, loopcut int }
 }
@@ -227,6 +229,12 @@ func (e *Engine) finish(s *state, rets []*Term, pos token.Pos, panicked bool) {
 }
 
 func (s *state) emit(ev Event) {
+	for _, f := range s.stack {
+		if f.fromDefer {
+			ev.AtExit = true // effects of an inlined deferred call happen at function exit
+			break
+		}
+	}
 	s.seq++
 	ev.Seq = s.seq
 	s.events = append(s.events, ev)
@@ -298,6 +306,9 @@ func (e *Engine) run(s *state) []*state {
 			if len(s.stack) == 0 {
 				e.finish(s, rets, v.Pos(), false)
 				return nil
+			}
+			if fr.hofOf != "" {
+				s.emit(Event{Kind: "hofret", Callee: fr.hofOf, Args: rets, Pos: v.Pos(), Ctx: fr.ctx, Depth: fr.depth, InFn: fr.fn})
 			}
 			caller := s.stack[len(s.stack)-1]
 			if fr.fromDefer {
@@ -493,9 +504,16 @@ func concreteType(t *Term) types.Type {
 		return nil
 	}
 	switch t.Kind {
-	case "alloc", "structval", "closure":
+	case "alloc", "structval", "closure", "preset":
 		if _, isIface := t.Typ.Underlying().(*types.Interface); !isIface {
 			return t.Typ
+		}
+	case "call", "field", "deref", "global", "param", "freevar", "lookup", "out":
+		// a value whose static type is already concrete (e.g. a *sql.Tx held in an interface-typed parameter of a helper)
+		if _, isIface := t.Typ.Underlying().(*types.Interface); !isIface {
+			if _, isTuple := t.Typ.(*types.Tuple); !isTuple {
+				return t.Typ
+			}
 		}
 	}
 	return nil
@@ -693,6 +711,30 @@ func (e *Engine) doCall(s *state, fr *frame, v *ssa.Call, c *ssa.CallCommon) boo
 		}
 	}
 	s.emit(ev)
+	if idx, isHof := e.hof[d.callee]; isHof && idx < len(d.args) && fr.depth < e.maxDepth {
+		fa := d.args[idx]
+		var opFn *ssa.Function
+		od := deferred{pos: v.Pos()}
+		if fa != nil && (fa.Kind == "closure" || fa.Kind == "func") {
+			opFn = e.funcByName[fa.Name]
+			if opFn != nil && fa.Kind == "closure" {
+				od.closure = fa
+				if strings.HasSuffix(opFn.Name(), "$bound") && len(fa.Args) > 0 {
+					od.recv = fa.Args[0]
+					od.closure = nil
+					if obj, ok := opFn.Object().(*types.Func); ok {
+						opFn = e.prog.FuncValue(obj)
+					}
+				}
+			}
+		}
+		if opFn != nil && e.inModule(opFn) && !e.onStack(s, opFn) {
+			nf := e.newFrame(opFn, fr, od, v, v.Pos())
+			nf.hofOf = d.callee
+			s.stack = append(s.stack, nf)
+			return true // the call evaluates to what the function argument returned (single synchronous run)
+		}
+	}
 	// havoc memory reachable through address arguments of opaque calls
 	if !noHavocPkgs[calleePkg(d.callee)] || strings.Contains(d.callee, "scan") {
 		n := 0
